@@ -441,6 +441,15 @@ class Martingale(Lemma):
                 drift_orig = to_sp(vc.method(model, "process_drift"))
                 vc.check_zero(nm + "::after-a-rate-update:direct-simulation-drift-follows-the-new-rate", lambda: sp.simplify((drift_before - drift_orig) - (r2 - r)), samp_r)
             vc.interp.setattr(model, "r", SpVal(r))
+            # ... and the spot is an attribute too: every route starts from the model's CURRENT spot
+            s2 = S("spot_new", positive=True)
+            vc.interp.setattr(model, "spot", SpVal(s2))
+            samp_s = lambda g: {**samp(g), s2: g.uniform(50, 150)}
+            cf3 = to_sp(vc.method(model, "log_characteristic_function", SpVal(t), -1j))
+            vc.check_zero(nm + "::after-a-spot-update:characteristic-function-at-minus-i-is-the-forward-of-the-new-spot", lambda: sp.simplify(sp.log(sp.simplify(cf3 / (s2 * sp.exp((r - d) * t))))), samp_s)
+            x0v = to_sp(vc.method(model, "x0_value"))
+            vc.check_zero(nm + "::after-a-spot-update:simulation-starts-at-the-logarithm-of-the-new-spot", lambda: sp.simplify(sp.exp(x0v) / s2 - 1), samp_s)
+            vc.interp.setattr(model, "spot", SpVal(spot))
         mean1 = to_sp(vc.method(model, "mean", SpVal(t)))
         vc.check_zero(nm + "::mean-of-S_t/S_0-is-exp((r-d)t)", lambda: sp.simplify(sp.log(sp.simplify(mean1 / sp.exp((r - d) * t)))), samp)
         if regime["own_drift"]:
@@ -462,6 +471,12 @@ class Martingale(Lemma):
         got_cf = complex(m.log_characteristic_function(t=T, x=-1j, log_spot=0))
         info = {"model": repr(m), "T": T, "forward/S0": float(fwd), "characteristic_function_at_-i": [got_cf.real, got_cf.imag]}
         bad = abs(got_cf - fwd) > 1e-9
+        if "after-a-spot-update" in clause:
+            s_new = 1.2 * float(m.spot)
+            m.spot = s_new
+            cfv = complex(m.log_characteristic_function(t=T, x=-1j))
+            return (abs(cfv - s_new * fwd) > 1e-9 * s_new or abs(np.exp(m.x0_value()) - s_new) > 1e-9 * s_new,
+                    {"model": repr(m), "spot_after_update": s_new, "E[S_T]_from_the_characteristic_function": cfv.real, "forward_of_the_new_spot": float(s_new * fwd), "exp(x0_value)": float(np.exp(m.x0_value()))})
         if "after-a-rate-update:direct-simulation" in clause:
             d0 = float(m.process_drift())
             m.r = m.r + 0.02
